@@ -350,6 +350,42 @@ def run(check):
                    'hash alike (or are filtered) the walk in get_nodes, which counts len(self.nodes) steps, wraps early: a node is '
                    'returned twice and another never' % why, construct='self.sorted_nodes = sorted((hash, n) for n in self.nodes)')
 
+  # ------------------------------------------------------------------ positions in the ring are taken modulo the ring's own length
+  r_ix = check.rule('R-C05-ring-index', 3, 'every index into the ring (and the walk\'s stop marker) wraps at the length of the ring')
+  for mname in ('get_node', 'get_nodes'):
+    m = ring.methods.get(mname)
+    if m is None:
+      continue
+    idx_vars = {x.slice.id for x in walk_no_nested(m.node, include_self=False) if isinstance(x, ast.Subscript) and
+                dotted(x.value) == 'self.ring' and isinstance(x.slice, ast.Name)}
+    # names compared for (in)equality with an index take part in the same arithmetic (the stop marker of the walk)
+    grew = True
+    while grew:
+      grew = False
+      for x in walk_no_nested(m.node, include_self=False):
+        if isinstance(x, ast.Compare) and len(x.ops) == 1 and isinstance(x.ops[0], (ast.Eq, ast.NotEq)) and \
+           isinstance(x.left, ast.Name) and isinstance(x.comparators[0], ast.Name):
+          a_, b_ = x.left.id, x.comparators[0].id
+          for u, v in ((a_, b_), (b_, a_)):
+            if u in idx_vars and v not in idx_vars:
+              idx_vars.add(v)
+              grew = True
+    for st in walk_no_nested(m.node, include_self=False):
+      if isinstance(st, ast.Assign) and any(isinstance(t, ast.Name) and t.id in idx_vars for t in st.targets):
+        mods = [b for b in ast.walk(st.value) if isinstance(b, ast.BinOp) and isinstance(b.op, ast.Mod)]
+        vn_m = ValueNumbers(cx, m)
+        S_ = ('param', m.params[0])
+        for b in mods:
+          mt = vn_m.term(b.right, st)
+          if mt in (('attr', S_, 'ring_len'), ('call', 'len', ('attr', S_, 'ring'))):
+            r_ix.ok('%s: `%s` wraps at the ring length' % (mname, short(st)), m.loc(st))
+          else:
+            r_ix.violate('%s: index wraps at something else' % mname, m, st, '`%s` takes a ring index modulo `%s`, which is not the '
+                         'length of the ring: the walk over the ring then stops early (or never) for keys near the ends of the ring, '
+                         'so fewer replicas than required are returned' % (short(st), unparse(b.right)))
+        if not mods and not isinstance(st.value, ast.Name):
+          pass
+
   # ------------------------------------------------------------------ purity
   r_pu = check.rule('R-C05-pure', 4, 'same key and membership -> same ordered list')
   fns = [f for f in (gn, gd, repo.func('carbon.hashing', 'carbonHash'), ring.methods.get('compute_ring_position'),
